@@ -157,6 +157,9 @@ def texts(ctx, n):
         else:
             s = gen.g3(rng)
         s = ''.join(ch for ch in s if not 0xD800 <= ord(ch) <= 0xDFFF)
+        if rng.random() < 0.12:
+            # characters that codecs treat specially at the start of a text (signatures, byte-order marks, NUL)
+            s = rng.choice(['\ufeff', '\ufffe', '\x00', '\ufeff\ufeff', '\u200b']) + s
         out.append(s)
     return out
 
